@@ -120,8 +120,58 @@ reg("C08", exc_ops=set(), nontrivial=nt_links, hook="welinks", obs_fail=False,
     weights={"AddLinks": 24, "IndexBatchCrawl": 16, "CreateWe": 10, "AddPrefix": 6, "RemovePrefix": 5, "DeleteWe": 5},
     profile={"raw": 0.0, "long": 0.1, "nlrus": 12, "homelinks": 0.3, "prefixlinks": 0.4, "siblinks": 0.3}, n=(130, 1000), steps=(14, 20),
     title="Per-webentity link queries")
+def token_rows(seed, only=None):
+    """Rows for spec/TokenRows.tla: the real token helpers on every path of up to 6 moves, on long random
+    paths (far beyond 64 bits) and on a few prefix indexes."""
+    import itertools
+    import traph.helpers as th
+    rng = random.Random(seed * 13 + 1)
+    paths = [list(p) for n in range(0, 7) for p in itertools.product((1, 2, 3), repeat=n)]
+    for _ in range(300):
+        paths.append([rng.choice((1, 2, 3)) for _ in range(rng.choice([7, 8, 9, 15, 16, 17, 31, 32, 33, 48, 64, 90]))])
+    rows = []
+    if only is not None:
+        paths = [list(only[1])]
+    for k, path in enumerate(paths):
+        i = rng.choice([0, 0, 1, 2, 3, 17, 256]) if only is None else only[0]
+        x = 0
+        for g in path:
+            x = th.base4_append(x, g)
+        row = {"id": k, "i": i, "path": path, "text": [], "sep": False, "back": [], "backi": -1, "exc": ""}
+        try:
+            tok = th.build_pagination_token(i, x)
+            parts = tok.split("#")
+            row["sep"] = len(parts) == 2 and parts[0] == str(i)
+            row["text"] = [impl._B64.index(c) for c in parts[-1]]
+            bi, bx = th.parse_pagination_token(tok)
+            digits = []
+            while bx:
+                digits.append(bx % 4)
+                bx //= 4
+            digits.reverse()
+            row["backi"], row["back"] = bi, digits
+        except Exception as e:
+            row["exc"] = impl.exc_name(e)
+        rows.append(row)
+    return rows
+
+
+def token_source(pid, cfg, tier, seed, work, first_id, hook=None):
+    """extra source of C09: not traces but rows; their verdicts are carried by one pseudo-trace per failing row."""
+    rows = token_rows(seed)
+    v = runner.validate_rows(rows, os.path.join(work, "tokenrows"), module="tokenrows")
+    out = []
+    for r in rows:
+        bad = v["verdicts"].get(r["id"], [])
+        if bad:
+            out.append({"id": first_id + len(out), "backend": "none", "def": {"k": "domain"}, "rules": [], "steps": [],
+                        "src": "token-row", "ops": [], "row": r, "rowfail": [c for _, c in bad]})
+    return out, {"token_rows": len(rows), "token_rows_failing": len(out)}
+
+
 reg("C09", exc_ops=set(), nontrivial=nt_pages, hook="pagination", obs_fail=False,
-    mc=[("core", 4, 5), ("pag", None, None)],
+    mc=[("core", 4, 5), ("pag", None, None), ("token", None, None)],
+    extra_sources=(tlcgen.tlc_traces, tlcgen.repo_test_traces, token_source),
     weights={"Paginate": 40, "AddPage": 30, "AddPages": 8, "CreateWe": 8, "AddPrefix": 8, "AddLinks": 4,
              "IndexBatchCrawl": 4, "Clear": 0, "DeleteWe": 2, "RemovePrefix": 2, "MovePrefix": 2},
     profile={"raw": 0.0, "long": 0.2, "nlrus": 18, "extend": 0.3, "continue": 0.55, "concentrate": 1,
@@ -318,8 +368,14 @@ def run_check(pid, tier, seed, work, t0):
         more, st = mk(pid, cfg, tier, seed, work, max([t["id"] for t in traces] + [0]) + 2, hook=hook_fn)
         traces += more
         gstats.update(st)
-    # 3. TLC validates the recorded traces
+    # 3. TLC validates the recorded traces (rows judged by their own spec arrive as pseudo-traces
+    #    that already carry their verdict)
+    rowtr = [t for t in traces if t.get("rowfail")]
+    traces = [t for t in traces if not t.get("rowfail")]
     val = validate_chunks(traces, work)
+    for t in rowtr:
+        val["verdicts"][t["id"]] = [(1, c) for c in t["rowfail"]]
+    traces += rowtr
     # 4. verdicts
     viol, hits, drift = judge(pid, cfg, traces, val, known)
     return finish(pid, cfg, tier, seed, t0, mcs, traces, gstats, val, viol, hits, drift)
@@ -345,7 +401,8 @@ def finish(pid, cfg, tier, seed, t0, mcs, traces, gstats, val, viol, hits, drift
     nviol = 0
     for v in viol:
         tr = v["trace"]
-        path = save_replay(pid, tr, [list(c) for c in v["clauses"]])
+        path = save_replay(pid, tr, [list(c) for c in v["clauses"]],
+                           extra={"kind": "token", "row": tr["row"]} if tr.get("row") else None)
         step, clause = v["clauses"][0][0], v["clauses"][0][1]
         op = tr["steps"][step - 1]["op"] if 0 < step <= len(tr["steps"]) else "?"
         print("VIOLATION property=%s replay=%s clause=%s step=%d op=%s backend=%s"
@@ -819,6 +876,16 @@ def replay(pid, path, work):
         return replay_c17(body, work)
     if body.get("kind") == "crash":
         return replay_c18(body, work)
+    if body.get("kind") == "token":
+        want = (body["row"]["i"], body["row"]["path"])
+        rows = [r for r in token_rows(0, only=want)]
+        v = runner.validate_rows(rows, os.path.join(work, "tokenrows"), module="tokenrows")
+        bad = [c for _, c in v["verdicts"][rows[0]["id"]]]
+        for c in bad:
+            print("VIOLATION property=C09 replay=%s clause=%s row=%s" % (path, c, want))
+        if not bad:
+            print("replay: no violation of C09 on the current tree for token row %s" % (want,))
+        return 1 if bad else 0
     cfg = P[body["property"]]
     hook = getattr(hooks, "hook_" + cfg["hook"]) if cfg["hook"] else None
     rules = [tuple(x) for x in s2b(body["rules"])]
